@@ -14,7 +14,7 @@ RULE = ('EX engine (metamorphic): 12 estimator classes x real/complex x every la
         '(one-sided: every entry, Nyquist included), and the model parameters (ar, ma, rho, reflection, singular values, taper eigenvalues, weights at common '
         'bins) are identical (1e-12, i.e. rounding level); also through the NFFT setter of a live object. Distinct = digests of the NFFT1 estimate')
 ASSUMPTIONS = ['scale_by_freq is off', 'domain as in C03/C04 (well-posed problems)',
-               "tolerance 1e-9 relative to the largest value; multitaper 'adapt': 2e-3 (its iteration stops on a global tolerance of 5e-4 times the data power per bin, so the number of iterations may depend on NFFT)"]
+               "tolerance 1e-9 relative to the largest value; multitaper 'adapt': 5e-3 (its iteration stops on a global tolerance of 5e-4 times the data power per bin, so the number of iterations may depend on NFFT)"]
 
 CONFIGS = dict(c04.CONFIGS)
 SHORT_OK = dict(c04.SHORT_OK)
@@ -103,7 +103,7 @@ def eval_point(pt, R):
     R.point(pt)
     R.dig(P1)
     adapt = cls == 'MultiTapering' and o.get('method') == 'adapt'
-    rtol = 2e-3 if adapt else 1e-9
+    rtol = 5e-3 if adapt else 1e-9
     for c in pt['mult']:
         ptc = dict(pt, mult=[c])
         R.calls()
